@@ -5,6 +5,7 @@ import (
 	"context"
 	"errors"
 	"fmt"
+	"io"
 	"net/http"
 	"net/http/httptest"
 	"strings"
@@ -273,7 +274,7 @@ func C02(r *h.Run) {
 	// the code, message, details and metadata the handler chose must arrive, not a re-coded error
 	for pi, proto := range protos {
 		for ki, kind := range kinds {
-			for ci, cause := range []error{context.DeadlineExceeded, context.Canceled} {
+			for ci, cause := range []error{context.DeadlineExceeded, context.Canceled, io.EOF, io.ErrUnexpectedEOF, io.ErrClosedPipe, http.ErrHandlerTimeout} {
 				var copts []connect.ClientOption
 				switch proto {
 				case "grpc":
@@ -294,7 +295,7 @@ func C02(r *h.Run) {
 				}
 				ex := &e2eExtras{}
 				res := runE2E(bytesValueKind, kind, viaLocal, copts, nil, [][]byte{{1}}, send, retErr, 0, ex)
-				in := map[string]any{"proto": proto, "kind": kind, "code": code.String(), "cause": cause.Error(), "source": "handler error wrapping a context error"}
+				in := map[string]any{"proto": proto, "kind": kind, "code": code.String(), "cause": cause.Error(), "source": "handler error wrapping a context error or one of the sentinel errors of io / net/http"}
 				r.Eval("e2e_ctx_cause", fmt.Sprint(pi, kind, ci))
 				if res.Panic != nil {
 					r.Fail(h.Failure{Key: "error/panic-or-hang", Family: "e2e_ctx_cause", What: fmt.Sprint(res.Panic), Input: in})
@@ -530,15 +531,16 @@ func C02(r *h.Run) {
 			} else {
 				checkError(r, "e2e_icpt_error", in, ex.ClientErr, connect.CodeFailedPrecondition, "from interceptor é%", mkDetails(1), http.Header{"X-I": {"1"}})
 			}
-			plain := errors.New("plain go error: 100% \x01 é")
-			ex = &e2eExtras{}
-			res = runE2E(bytesValueKind, kind, viaLocal, copts, nil, [][]byte{{1}}, [][]byte{{2}}, plain, 0, ex)
-			in = map[string]any{"proto": proto, "kind": kind, "source": "plain Go error"}
-			r.Eval("e2e_plain_error", fmt.Sprint(pi, kind))
-			if res.Panic != nil {
-				r.Fail(h.Failure{Key: "error/panic-or-hang", Family: "e2e_plain_error", What: fmt.Sprint(res.Panic), Input: in})
-			} else {
-				checkError(r, "e2e_plain_error", in, ex.ClientErr, connect.CodeUnknown, plain.Error(), nil)
+			for _, plain := range []error{errors.New("plain go error: 100% \x01 é"), fmt.Errorf("read config: %w", io.EOF), io.ErrUnexpectedEOF} {
+				ex = &e2eExtras{}
+				res = runE2E(bytesValueKind, kind, viaLocal, copts, nil, [][]byte{{1}}, [][]byte{{2}}, plain, 0, ex)
+				in = map[string]any{"proto": proto, "kind": kind, "source": "plain Go error", "error": fmt.Sprintf("%q (%T)", plain.Error(), plain)}
+				r.Eval("e2e_plain_error", fmt.Sprint(pi, kind, plain))
+				if res.Panic != nil {
+					r.Fail(h.Failure{Key: "error/panic-or-hang", Family: "e2e_plain_error", What: fmt.Sprint(res.Panic), Input: in})
+				} else {
+					checkError(r, "e2e_plain_error", in, ex.ClientErr, connect.CodeUnknown, plain.Error(), nil)
+				}
 			}
 		}
 	}
